@@ -3,7 +3,8 @@
    correspondence harness.  Glue only; no property is stated about it. *)
 From Coq Require Import List Ascii String NArith ZArith QArith Bool.
 From LS Require Import Model.Bytes Model.Sx Model.Tags Gen.Consts
-  Model.Quote Model.Framing Model.Keepalive.
+  Model.Quote Model.Framing Model.Keepalive Model.Codec Model.Readers Model.AriSpec
+  Model.EntryWire.
 Import ListNotations.
 
 Definition un_Q (x : sx) : option Q :=
@@ -61,6 +62,27 @@ Definition e_feed_all (args : list sx) : sx :=
   | _ => sx_err "feed_all: arity"
   end.
 
+(* (feed_trace <buffer> (<chunk> ...)) -> ((<lines of chunk 1>) ... ) <final buffer> | decode-error *)
+Fixpoint feed_trace (buf : bytes) (chunks : list bytes) (acc : list sx) : sx :=
+  match chunks with
+  | [] => SL [SL (rev acc); SA buf]
+  | ch :: rest =>
+      match feed buf ch with
+      | None => SL [SL (rev (sym "decode-error" :: acc)); SA buf]
+      | Some (ls, buf') => feed_trace buf' rest (sx_list sx_bytes ls :: acc)
+      end
+  end.
+
+Definition e_feed_trace (args : list sx) : sx :=
+  match args with
+  | [SA buf; chunks] =>
+      match un_listof un_atom chunks with
+      | Some chs => feed_trace buf chs []
+      | None => sx_err "feed_trace: bad chunks"
+      end
+  | _ => sx_err "feed_trace: arity"
+  end.
+
 Definition entry (x : sx) : sx :=
   match un_app x with
   | None => sx_err "not an application"
@@ -69,5 +91,13 @@ Definition entry (x : sx) : sx :=
       else if head_is "quote_plus" h then e_bytes_fn quote_plus args
       else if head_is "unquote_plus" h then e_bytes_fn unquote_plus args
       else if head_is "feed_all" h then e_feed_all args
+      else if head_is "feed_trace" h then e_feed_trace args
+      else if head_is "decode_line" h then e_decode_line args
+      else if head_is "parse_request" h then e_parse_request args
+      else if head_is "read_request" h then e_read_request args
+      else if head_is "read_close" h then e_read_close args
+      else if head_is "encode_line" h then e_encode_line args
+      else if head_is "encode_text" h then e_encode_text args
+      else if head_is "decode_string" h then e_decode_string args
       else sx_err "unknown function"
   end.
